@@ -89,9 +89,13 @@ def sig_cases(tier: str, seed: int):
     from .. import shapes as _sh
     extra = []
     rr = _r.Random(19)
-    for r, vs in (("u128", [3, 4, 5, 6]), ("i128", [-2, -1, 0, 1, 2]), ("u64", [10, 11, 12]), ("isize", [-1, 0, 1]),
+    for r, vs in (("u8", list(range(0, 256))), ("i8", list(range(-128, 128))), ("u128", [3, 4, 5, 6]), ("i128", [-2, -1, 0, 1, 2]), ("u64", [10, 11, 12]), ("isize", [-1, 0, 1]),
                   ("usize", [0, 1, 5, 6]), ("i128", [-9, -8, 100]), ("u16", list(range(0, 300))), ("i64", [-(1 << 63), -(1 << 63) + 1, 5])):
         extra.append(_sh.build_decl(r, _sh.order_values(vs, "perm", rr), "sig_%s_%d" % (r, len(vs)), "dec", "first", rr))
+    # variants renamed to the names of generated items
+    from ..spec import make_decl as _mk
+    extra.append(_mk("i16", [("A", "3", "MAX"), ("B", "1", "MIN"), ("C", "9", "LAST"), ("D", "4", "iter"), ("F", "-2", "FIRST")],
+                     shape="sig_renamed_like_items"))
     for di, d in enumerate(corpus.cfg_shapes() + extra):
         gap = d.gapless()
         tuples = corpus.mode_tuples(gap, with_range=True)
